@@ -617,7 +617,7 @@ for _c in REF_COLS_ALL:
         CATALOGUE[f"ref-dup5:{_c}"] = m_ref_dup(_c, 5)
 
 HEADER_MUTS = ["dup-header", "dup-header-trailing-space", "dup-header-case", "alias-clash", "alias-clash-rev", "alias-clash-caption-label", "alias-clash-settings-title",
-               "alias-clash-settings-ids-case", "md-wide-row", "no-type-header", "no-name-header",
+               "alias-clash-settings-ids-case", "md-wide-row", "md-empty-sheet", "md-empty-first-sheet", "no-type-header", "no-name-header",
                "no-survey", "omit-id+key", "dup-choices-header", "dup-settings-header"]
 HDR_FORMATS = ["xlsx", "xls", "md", "csv"]
 
@@ -668,7 +668,7 @@ def gen_cat(tier):
                             yield dict(case, blanks=b, fmt=fmt)
     for hm in HEADER_MUTS:
         for forest in forests_upto(2, 3):
-            if hm == "md-wide-row":
+            if hm in ("md-wide-row", "md-empty-sheet", "md-empty-first-sheet"):
                 yield {"g": "hdr", "f": forest_to_json(forest), "mut": hm, "fmt": "md"}
             elif hm.startswith("dup-") or hm.startswith("alias-clash"):
                 for fmt in HDR_FORMATS:
@@ -755,6 +755,14 @@ def check_hdr(case):
     wb = {"survey": rows, "choices": [dict(c) for c in CHOICES]}
     mut, fmt = case["mut"], case.get("fmt", "dict")
     exp = E()
+    if mut in ("md-empty-sheet", "md-empty-first-sheet"):
+        # a sheet name with no rows under it (last, or between two sheets)
+        tables = _tables(wb)
+        src, kw = _tables_to_text(tables, "md")
+        src = (src + "| settings |\n") if mut == "md-empty-sheet" else ("| entities |\n" + src)
+        out = run_convert(src, **kw)
+        viol = [(f"internal-exception:{out.exc}:{out.where}:{mut}", out.msg[:200])] if out.kind == "crash" else []
+        return {"outcome": f"hdr-{out.kind}", "nt": not viol, "viol": viol, "tr": 1}
     if mut == "md-wide-row":
         # a markdown data row with more cells than the header row: the surplus cells belong to no column (as in a spreadsheet)
         tables = _tables(wb)
